@@ -387,4 +387,5 @@ def run_apalache(module, args, timeout=900, cwd=None):
         txt, ok, outcome = "apalache-mc not found", False, "missing"
     finally:
         shutil.rmtree(out, ignore_errors=True)
-    return {"ok": ok, "outcome": outcome, "wall_s": round(time.time() - t0, 1), "tail": "\n".join(txt.splitlines()[-8:])}
+    return {"ok": ok, "outcome": outcome, "wall_s": round(time.time() - t0, 1), "tail": "\n".join(txt.splitlines()[-8:]),
+            "counterexample": "Checker has found an error" in txt}
